@@ -150,3 +150,26 @@ func ServerWeights(r *Raw, backend string) map[string]int {
 	}
 	return res
 }
+
+// ServerWeightsAll is ServerWeights for backends that may list an address more than once (a Gateway API rule with two
+// backendRefs to the same Service): every weight written for the address, in the order of the server lines.
+func ServerWeightsAll(r *Raw, backend string) map[string][]int {
+	res := map[string][]int{}
+	for _, s := range r.Sections {
+		if s.Kind != "backend" || s.Name != backend {
+			continue
+		}
+		for _, l := range s.Lines {
+			m := reServer.FindStringSubmatch(l)
+			if m == nil || strings.Contains(" "+m[3]+" ", " disabled ") {
+				continue
+			}
+			w := 1
+			if wm := reWeightTok.FindStringSubmatch(" " + m[3]); wm != nil {
+				fmt.Sscanf(wm[1], "%d", &w)
+			}
+			res[m[2]] = append(res[m[2]], w)
+		}
+	}
+	return res
+}
